@@ -52,8 +52,13 @@ theorem leO_iff (a b : Option K) : leO a b = true ↔ wb a ≤ wb b := by
 These lemmas are the proof obligations on `Rl4co/Generated/Params.lean` (regenerated from the Python source
 on every run): each holds only for the committed value of its token, and everything below goes through them. -/
 
+/-- the guards of the clip / top-k / top-p stages test the value of the option only (obligation on the extracted
+`logitsStageGuards`; a type test in a guard — `isinstance(top_k, int) and top_k > 0` — breaks it) -/
+theorem guardPlain_eq : guardPlain "clip" = true ∧ guardPlain "topk" = true ∧ guardPlain "topp" = true := by
+  decide
+
 theorem topkOn_eq (k : Nat) : topkOn k = decide (0 < k) := by
-  simp [topkOn, Params.logitsTopkOnCmp, Cmp.evalNat]
+  simp [topkOn, guardPlain_eq.2.1, Params.logitsTopkOnCmp, Cmp.evalNat]
 
 theorem kEff_eq (n k : Nat) : kEff n k = min k n := by
   simp [kEff, Params.logitsTopkClampMin, Params.logitsTopkFilter]
@@ -62,7 +67,7 @@ theorem cmpO_topk (a b : Option K) : cmpO topkCmp a b = ltO a b := by
   simp [topkCmp, Params.logitsTopkFilter, cmpO]
 
 theorem toppOff_iff (p : K) : toppOff p = true ↔ (p ≤ 0 ∨ 1 ≤ p) := by
-  simp only [toppOff, Params.logitsToppOnCmp, Params.logitsToppGuardCmps, List.getD_cons_zero, List.getD_cons_succ,
+  simp only [toppOff, guardPlain_eq.2.2, Bool.not_true, Bool.false_or, Params.logitsToppOnCmp, Params.logitsToppGuardCmps, List.getD_cons_zero, List.getD_cons_succ,
     cmpK, Bool.or_eq_true, Bool.not_eq_true', decide_eq_false_iff_not, not_lt]
   tauto
 
@@ -156,7 +161,7 @@ theorem topP_get (p : K) (X : Vec (Option K)) (j : Nat) : (topPStage n w p σ X)
 theorem stages_pre :
     applyStage w clip c n mask kth σ .temp (applyStage w clip c n mask kth σ .mask
       (applyStage w clip c n mask kth σ .clip (Vec.tab n (fun j => some (x j))))) = pre clip c n x mask := by
-  simp only [applyStage, stClip, stClipAlways, stMask, stTemp, pre, Vec.tab_eq]
+  simp only [applyStage, stClip, guardPlain_eq.1, Bool.true_and, stClipAlways, stMask, stTemp, pre, Vec.tab_eq]
   by_cases hc : c.clipOn = true
   · simp only [hc, if_true]
     congr 1
